@@ -1013,6 +1013,8 @@ class Run:
         if hd is None or hd.refused or hd.tainted or not self.knows_sp(hd):
             return
         sub = op[2]
+        if sub[0] == "doc_set" and cid(hd.sp) in self.emptydirs[hd.proj]:
+            return  # document access does not repair an artificial empty id-named directory (see _usable_for_doc)
         ncopies = sum(1 for x in self.handles if x.group == hd.group)
         try:
             blob = pickle.dumps(hd.obj)
